@@ -320,9 +320,6 @@ func runC09(o *Out) {
 			if stdValid {
 				if whole.ok != buf.ok || (whole.ok && whole.snap != buf.snap) {
 					switch {
-					case d.name == "int" && whole.ok && !buf.ok && whole.offset < int64(len(bytes.TrimRight(doc, " \t\r\n"))):
-						// recorded finding: the stream integer decoder stops at the first byte that is not a digit
-						o.known("StreamIntegerPrefix", fmt.Sprintf("%q into int", ds))
 					case whole.ok && buf.ok && !utf8.Valid(doc) && c09SameAfterUTF8Repair(whole.snap, buf.snap):
 						// recorded finding: Unmarshal keeps invalid UTF-8 bytes of a string, the Decoder (like encoding/json) replaces them
 						o.known("BufferKeepsInvalidUTF8", fmt.Sprintf("%q into %s", ds, d.name))
@@ -446,9 +443,6 @@ func c09WindowSweep(o *Out) {
 						got := c09Stream(doc, d, cuts)
 						o.count("window_sweep_decodes", 1)
 						if got.panicd != "" || got.ok != buf.ok || (got.ok && got.snap != buf.snap) {
-							if d.name == "int" && got.ok && !buf.ok {
-								continue
-							}
 							o.violation("C09", "Decoder.Decode and Unmarshal disagree when a token crosses a refill of the stream buffer", map[string]string{
 								"doc": ds, "leading_spaces": strconv.Itoa(pad), "dest": d.name, "cuts": fmt.Sprint(cuts), "stream": clip(got.String()), "buffer": clip(buf.String())})
 							break
